@@ -96,8 +96,49 @@ def run_with_inert(spec, mode):
     return rr, inert
 
 
+def optimised_interpreter(ctx):
+    """The same small session in child interpreters started without flags, with -O and with -OO: outcomes, pulled and pushed contents
+    are the same, and the transfers satisfy the TraceSync clauses at every level."""
+    import json
+    import os
+    import subprocess
+    e = dict(os.environ, PYTHONPATH=os.path.dirname(os.path.dirname(os.path.dirname(os.path.abspath(__file__)))))
+    e.pop('PYTHONOPTIMIZE', None)
+    res = {}
+    for flag in ('', '-O', '-OO'):
+        p = subprocess.run(['/venv/bin/python'] + ([flag] if flag else []) + ['-m', 'harness.optprobe', ctx.repo], env=e, stdout=subprocess.PIPE, stderr=subprocess.STDOUT, timeout=600)
+        line = next((l for l in p.stdout.decode('utf8', 'replace').splitlines() if l.startswith('PROBE ')), None)
+        if line is None:
+            if not flag:
+                raise tlc.TlcError('the probe session failed in a plain child interpreter: %s' % p.stdout.decode('utf8', 'replace')[-400:])
+            ctx.violation('C08.PullExact', dict(kind='interpreter started with %s' % flag, output=p.stdout.decode('utf8', 'replace')[-600:]))
+            return
+        res[flag] = json.loads(line[6:])
+    ctx.extra['optimisation_levels_probed'] = [res[f]['optimize'] for f in ('', '-O', '-OO')]
+    for flag in ('-O', '-OO'):
+        for a, b in zip(res['']['runs'], res[flag]['runs']):
+            ctx.count(evaluations=1)
+            for key, clause in (('pulled', 'C08.PullExact'), ('outcomes', 'C08.PullExact'), ('pushed', 'C07.ExactBytes')):
+                if a[key] != b[key]:
+                    diff = [k for k in (a[key] if isinstance(a[key], dict) else range(len(a[key]))) if (a[key][k] != (b[key].get(k) if isinstance(b[key], dict) else b[key][k]))]
+                    ctx.violation(clause, dict(kind='interpreter started with %s: %s differ from a plain interpreter' % (flag, key), mode=a['mode'], differing=[str(d) for d in diff][:5],
+                                               plain=[str(a[key][d])[:80] for d in diff][:3], optimised=[str((b[key].get(d) if isinstance(b[key], dict) else b[key][d]))[:80] for d in diff][:3]))
+                    return
+        trs = [t['trace'] for r_ in res[flag]['runs'] for t in r_['traces']]
+        ver, r = tlc.validate_traces('TraceSync', trs)
+        ctx.add_tlc(r, 'TraceSync over %d transfers run under python %s' % (len(trs), flag))
+        for (i, l, v) in ver:
+            if v != 'ok':
+                ctx.violation(v, dict(kind='interpreter started with %s' % flag, events=trs[i][:l][-4:]))
+            else:
+                ctx.count(traces=1)
+
+
 def body(ctx):
     rng = random.Random(ctx.seed)
+    optimised_interpreter(ctx)
+    if ctx.violations:
+        return
     r, lay = layouts(ctx, 2, [0, 1, 2], 2 if ctx.quick else 3)
     ctx.add_tlc(r, 'AdbSyncRead H=2 Sizes={0,1,2}')
     if r.violations:
@@ -158,6 +199,14 @@ def body(ctx):
                              dict(api='resume', gen='log')])
             for mode in ('sync', 'async'):
                 runs.append((mode, spec) + run_with_inert(spec, mode))
+    # a slow but healthy link: a quiet spell shorter than the read timeout before every packet, then a payload that trickles in over another
+    # spell shorter than the read timeout - together longer than it
+    for k5, rt in enumerate((0.5, 2.0)):
+        spec = dict(seed=ctx.seed + 740 + k5, maxdata=65536, rid='plus', frag='quiet_trickle', frag_rt=rt, ambient=False,
+                    ops=[dict(api='pull', path='/qt', size=130000, data_sizes=[60000, 60000, 10000], cuts='whole', dest='bytesio', cb=(None, 'ok')[k5], read_timeout_s=rt),
+                         dict(api='shell', decode=False, cmd='after', chunks=[(b'z' * 3000).hex()], read_timeout_s=rt)])
+        for mode in ('sync', 'async'):
+            runs.append((mode, spec) + run_with_inert(spec, mode))
     from .. import env as env_
     for k4, (size, cbk) in enumerate([(1, 'reenter'), (70000, 'reenter'), (200000, 'reenter'), (70000, 'reenter_stat'), (200000, 'reenter_pull'), (1, 'reenter_pull')]):
         spec = dict(seed=ctx.seed + 760 + k4, maxdata=4096, rid='plus', frag='whole', ops=[dict(api='pull', path='/re', size=size, dest='bytesio', cb=cbk),
